@@ -121,6 +121,10 @@ type plainW struct{ id int }                  // only io.Writer
 type closerW struct{ id int }                 // io.Writer + io.Closer (a slog.LogWriter)
 type levelW struct{ id int }                  // LogWriter that asks to be told the severity
 type plainLevelW struct{ id int }             // plain io.Writer that asks to be told the severity
+type uncmpW struct {                           // a writer used BY VALUE whose type cannot be compared with ==
+	id  int
+	pad []byte
+}
 
 func (w *plainW) Write(p []byte) (int, error)      { return sink.write(w.id, p) }
 func (w *closerW) Write(p []byte) (int, error)     { return sink.write(w.id, p) }
@@ -130,12 +134,16 @@ func (w *levelW) Close() error                     { sink.note(w.id, "c", 0); re
 func (w *levelW) SetLevel(l slog.Level)            { sink.note(w.id, "s", int(l)) }
 func (w *plainLevelW) Write(p []byte) (int, error) { return sink.write(w.id, p) }
 func (w *plainLevelW) SetLevel(l slog.Level)       { sink.note(w.id, "s", int(l)) }
+func (w uncmpW) Write(p []byte) (int, error)       { return sink.write(w.id, p) }
 
 var writerPool = map[int]io.Writer{}
 
 // writer ids from fileWriterBase on are real *os.File destinations (what an application's log file
 // or a pipe is): one end of a SOCK_SEQPACKET socket pair, so that every write(2) is seen as one event
 const fileWriterBase = 41
+
+// writer ids 37..40 are values of a struct type holding a slice: not comparable (spec: Uncomparable)
+const uncmpWriterBase = 37
 
 // writer ids from fwWriterBase on are the library's own file destinations: slog.NewFileWriter(path) on a
 // scratch file whose exported File field is then re-pointed at one end of a SOCK_SEQPACKET pair (what a
@@ -246,6 +254,9 @@ func writerKind(id int) string {
 	if id >= fileWriterBase {
 		return "file"
 	}
+	if id >= uncmpWriterBase {
+		return "ucw"
+	}
 	switch (id - 1) % 4 {
 	case 0:
 		return "plain"
@@ -286,6 +297,8 @@ func getWriter(id int) io.Writer {
 			w = newFwWriter(id)
 		case "file":
 			w = newFileWriter(id)
+		case "ucw":
+			w = uncmpW{id: id, pad: []byte{0}}
 		case "plain":
 			w = &plainW{id}
 		case "lw":
